@@ -94,6 +94,11 @@ impl MetadataClient for LocalMetadataClient {
     }
 
     async fn get_chunks(&self, range: TimeRange) -> Result<Vec<TimeIndexEntry>> {
+        // An inverted range intersects nothing (and BTreeMap::range panics on start > end).
+        if range.start > range.end {
+            return Ok(Vec::new());
+        }
+
         let mut results = Vec::new();
         let mut seen = std::collections::HashSet::new();
 
